@@ -32,7 +32,8 @@ def _params(cx, info, sp, open_end=False):
         x = cx.real('uvw'[d], lo=K[sp['degs'][d]], hi=K[info['sizes'][d]], param=True)
         if open_end:
             cx.assume(x < K[info['sizes'][d]])
-        cx.snap(x, K)
+        if not sp.get('kscaled'):
+            cx.snap(x, K)
         prm.append(x)
     return prm
 
@@ -197,6 +198,10 @@ def instances(tier):
                     add('affine', h_affine, sp, timeout=1800, order=1 if rational else 2)
             add('evaluator', h_evaluator, spec('curve', (p,), (m,), rational=False, dim=3), order=p + 2)
         add('spanfunc', h_spanfunc, spec('curve', (p,), ((1,),), rational=True, lo=2, hi=5))
+    # knot vectors times one symbolic factor (spans of any width): the two evaluator families agree
+    add('evaluator', h_evaluator, spec('curve', (2,), ((1,),), rational=False, dim=3, kscaled=True), order=3)
+    add('evaluator', h_evaluator, spec('curve', (3,), ((1, 1),), rational=False, dim=3, kscaled=True), order=3)
+    add('evaluator', h_evaluator, spec('surface', (1, 2), ((), (1,)), rational=False, kscaled=True), timeout=1800, order=2)
     out.append(inst('curve p2 unclamped spanfunc', h_spanfunc, sp=dict(kind='curve', degs=(2,), kvs=[fam.unclamped_uniform(2, 5)], dim=2, rational=False, mults=((),)), order=2))
     surf = [((1, 2), ((1,), ())), ((2, 1), ((), (1,))), ((2, 2), ((1,), (1,)))] + ([] if quick else [((3, 2), ((1,), (1, 1)))])
     for degs, ms in surf:
